@@ -161,6 +161,11 @@ func (s *Solver) Check(asserts []*term.T, wantModel bool) (Result, *term.Model) 
 	s.mu.Lock()
 	defer s.mu.Unlock()
 	sc := term.Render(asserts)
+	if len(sc.Text) > 6<<20 {
+		s.Stats.Unknown++
+		s.LastErr = "query too large"
+		return Unknown, nil
+	}
 	t0 := time.Now()
 	defer func() { s.Stats.Time += time.Since(t0) }()
 	open := "(push 1)\n"
